@@ -246,8 +246,16 @@ class Livetime(
         """
         onoff_intervals = self._get_onoff_intervals()
 
-        (t_start_idx, t_end_idx) = self._get_onoff_interval_indices(
-            (t_start, t_end))
+        # An empty time range does not contain any on-time.
+        if t_end <= t_start:
+            return np.empty((0, 2), dtype=np.float64)
+
+        t_start_idx = self._get_onoff_interval_indices(t_start)
+        # The time range does not include t_end itself. Hence, only the
+        # interval edges smaller than t_end count for t_end, otherwise a time
+        # range ending at the lower edge of an on-time interval would get a
+        # zero-length part of that on-time interval.
+        t_end_idx = np.digitize(t_end, onoff_intervals, right=True)
 
         # Check if there is any on-time interval within the given time range.
         # This is not the case if the time range lies entirely before the first
